@@ -47,6 +47,8 @@ type property struct {
 
 var registry = map[string]*property{}
 
+var genAnchorsPath string
+
 func register(p *property) { registry[p.ID] = p }
 
 func main() {
@@ -54,8 +56,10 @@ func main() {
 	tier := flag.String("tier", envOr("VERIF_TIER", "quick"), "quick|thorough")
 	list := flag.Bool("list", false, "list registered properties")
 	flag.BoolVar(&verbose, "v", false, "print every obligation")
+	genAnchors := flag.String("genanchors", "", "development aid: after the run, merge the body fingerprints of the unexported functions of the loaded packages into this file (anchors.json)")
 	dump := flag.String("dumpkeys", "", "development aid: module:pkg:recv:func - print the canonical keys of the conditions and assignments of a function")
 	flag.Parse()
+	genAnchorsPath = *genAnchors
 	if *dump != "" {
 		parts := strings.Split(*dump, ":")
 		l, err := newLoader("")
@@ -168,6 +172,11 @@ func runConfig(pr *property, rep *Reporter, tier, tags string) {
 		}()
 		pr.Run(c)
 	}()
+	if genAnchorsPath != "" && tags == "" {
+		if err := dumpAnchors(nil, genAnchorsPath); err != nil {
+			fmt.Fprintln(os.Stderr, "genanchors:", err)
+		}
+	}
 	if tags != "" {
 		for _, o := range sub.Obls {
 			rep.Obl(o.Rule, "[tags="+tags+"] "+o.Key, o.Pos, o.OK, o.Detail, o.Path...)
